@@ -37,3 +37,9 @@ package mapslicehelp
 //@   loop i
 //@     invariant 0 - 1 <= i && i < len(haystack)
 //@     decreases i + 1
+// CountVals walks the linked list of the ordered-map library (an opaque object here) and counts: the count cannot exceed
+// the number of entries of a map held in memory, so the increment cannot overflow; that bound is not derivable from an
+// opaque object, hence trusted.
+//@ func CountVals
+//@   trusted "counts the entries of an opaque library list (wk8/go-ordered-map); bounded by the number of entries"
+//@   ensures result >= 0
